@@ -215,8 +215,9 @@ func (db *DB) loadMergeFiles() (uint32, error) {
 		// 将重写的数据文件移动到数据目录中
 		srcFile := datafile.GetFileName(mergePath, fileID, datafile.DataFileSuffix)
 		if _, err := os.Stat(srcFile); err != nil {
-			// 如果原数据文件不存在, 则允许重写文件不存在
-			if !exist && os.IsNotExist(err) {
+			// 重写后的文件数量可能少于原数据文件数量, 允许重写文件不存在
+			_ = exist
+			if os.IsNotExist(err) {
 				continue
 			}
 			return 0, err
